@@ -1077,15 +1077,12 @@ coap_op_resource_deleted(coap_context_t *context,
   coap_binary_t *raw_packet = NULL;
   (void)user_data;
 
-  if (context->obs_cnt_save_file)
-    coap_op_obs_cnt_deleted(context, resource_name);
-
   if (!context->dyn_resource_save_file)
-    return 1;
+    goto done;
 
   fp_orig = fopen((const char *)context->dyn_resource_save_file->s, "r");
   if (fp_orig == NULL)
-    return 1;
+    goto done;
 
   new = coap_malloc_type(COAP_STRING,
                          context->dyn_resource_save_file->length + 5);
@@ -1123,6 +1120,13 @@ coap_op_resource_deleted(coap_context_t *context,
   /* Either old or new is in place */
   (void)rename(new, (const char *)context->dyn_resource_save_file->s);
   coap_free_type(COAP_STRING, new);
+done:
+  /*
+   * The observe counter goes last: whatever is left of the resource after a
+   * crash in here still has the counter it needs.
+   */
+  if (context->obs_cnt_save_file)
+    coap_op_obs_cnt_deleted(context, resource_name);
   return 1;
 
 fail:
